@@ -222,11 +222,18 @@ func (m *Machine) concretize(i Int, what string) int {
 			m.assume(m.tNot(m.tEq(i.T, bvConst(val, i.Bits))))
 			continue
 		}
-		r, model := m.sol.CheckModel(nil, []string{i.T.S})
+		// name the term so that get-value returns a parsable pair
+		probe := m.fresh(i.Bits, "cz")
+		m.sol.Assert(m.tEq(probe, i.T))
+		r, model := m.sol.CheckModel(nil, []string{probe.S})
 		if r != "sat" {
 			panic(Unsupported{"concretize: path condition not sat (" + r + ") for " + what})
 		}
-		val = modelUint(model[i.T.S])
+		mv, okv := model[probe.S]
+		if !okv {
+			panic(Unsupported{"concretize: no model value for " + what})
+		}
+		val = modelUint(mv)
 		eq := m.tEq(i.T, bvConst(val, i.Bits))
 		rF := m.sol.Check(m.tNot(eq))
 		if rF != "unsat" {
